@@ -65,6 +65,7 @@ fn client_loop(id: usize, port: u16, pk: Vec<u8>, srv: Vec<u8>, seed: u64, nreq:
         if stop.load(Ordering::Relaxed) {
             break;
         }
+        yield_to_judges();
         let proto = if rng.chance(1, 2) { Proto::Classic } else { Proto::Ietf };
         let with_srv = rng.chance(1, 2);
         let (pkt, nonce) = make_request(&mut rng, proto, if with_srv { Some(&srv) } else { None });
@@ -186,8 +187,10 @@ fn c18_round(ctx: &Ctx, out: &mut Out, rng: &mut Rng, k: u64) {
                 let pause = health_pause.clone();
                 std::thread::spawn(move || {
                     let (mut ok, mut bad) = (0u64, 0u64);
+                    let mut late = 0u64;
                     let mut n = 0u64;
                     while !st.load(Ordering::Relaxed) {
+                        yield_to_judges();
                         if pause.load(Ordering::Relaxed) {
                             std::thread::sleep(Duration::from_millis(10));
                             continue;
@@ -207,15 +210,18 @@ fn c18_round(ctx: &Ctx, out: &mut Out, rng: &mut Rng, k: u64) {
                         }
                         match crate::c15::health_once(hp, Duration::from_secs(3)) {
                             Ok(r) if r.starts_with("HTTP/1.1 200") => ok += 1,
+                            // answered late, or the server never settled: a statement about the machine
+                            Err(e) if e.starts_with("LATE") || e.starts_with("BUSY") => late += 1,
                             _ => bad += 1,
                         }
                     }
-                    (ok, bad)
+                    (ok, bad + (late << 32))
                 })
             })
             .collect(),
         _ => Vec::new(),
     };
+    set_current_server(Some((sp.pid(), port)));
     let drops0 = udp_drops(port).unwrap_or(0);
     let per_client = if ctx.thorough { rng.range(50, 500) as usize } else { rng.range(50, 200) as usize };
     let per_client = if nclients >= 64 { per_client.min(120) } else { per_client };
@@ -237,6 +243,7 @@ fn c18_round(ctx: &Ctx, out: &mut Out, rng: &mut Rng, k: u64) {
                 let addr: SocketAddr = format!("127.0.0.1:{}", port).parse().unwrap();
                 let mut n = 0u64;
                 while !st.load(Ordering::Relaxed) {
+                    yield_to_judges();
                     let proto = if r.chance(1, 2) { Proto::Classic } else { Proto::Ietf };
                     let (pkt, _) = make_request(&mut r, proto, Some(&sv));
                     raw.send_from_port(0, addr, &pkt);
@@ -394,7 +401,10 @@ fn c18_round(ctx: &Ctx, out: &mut Out, rng: &mut Rng, k: u64) {
     for h in health_threads {
         let (ok, bad) = h.join().unwrap_or((0, 0));
         out.obs("health_checks_during_load_ok", ok as i64);
-        health_bad += bad;
+        health_bad += bad & 0xffff_ffff;
+        if bad >> 32 > 0 {
+            out.inconclusive("health checks answered late / server never settled (loaded machine)");
+        }
     }
     // rounds with a health port end with the process at its descriptor limit and health
     // connections pending (accept fails, nothing is dequeued): the time service must go on
@@ -828,7 +838,17 @@ fn c19_run_phase(ctx: &Ctx, out: &mut Out, rng: &mut Rng, k: u64, force: Option<
     }
     let t_sig = Instant::now();
     // the load keeps going until the server exits or the bound expires
-    let res = sp.wait_exit(Duration::from_secs(10));
+    let mut res = sp.wait_exit(Duration::from_secs(10));
+    let mut slow_exit = false;
+    if res.is_none() && sp.all_threads_sleeping() == Some(false) {
+        // still alive after 10 s, but not blocked: some thread is running or waiting for a CPU. On
+        // an overloaded machine that may be an exit in progress; give it until 60 s. Exiting then
+        // is recorded as slow (inconclusive); still being alive is the violation it looks like.
+        if let Some((st, dt)) = sp.wait_exit(Duration::from_secs(50)) {
+            res = Some((st, dt + Duration::from_secs(10)));
+            slow_exit = true;
+        }
+    }
     stop.store(true, Ordering::Relaxed);
     drop(accept_conns);
     let mut verified = 0u64;
@@ -870,7 +890,9 @@ fn c19_run_phase(ctx: &Ctx, out: &mut Out, rng: &mut Rng, k: u64, force: Option<
                     desc.clone(),
                 );
             }
-            if dt >= Duration::from_secs(3) {
+            if slow_exit {
+                out.inconclusive("exit took more than 10 s with threads runnable throughout (overloaded machine?)");
+            } else if dt >= Duration::from_secs(3) {
                 out.inconclusive("exit took 3-10 s (slow; the statement says 'a few seconds')");
             }
         }
